@@ -25,6 +25,9 @@ Definition inverse2_eqb (c : ccirc) (ob : option (nat * list cop)) : bool :=
   cres_eqb (obind (inverse cfree c) (inverse cfree)) ob.
 Definition controlled_eqb (k : nat) (c : ccirc) (ob : option (nat * list cop)) : bool :=
   cres_eqb (controlled_circuit cfree k c) ob.
+(* c.controlled(k1).controlled(k2) *)
+Definition controlled2_eqb (k1 k2 : nat) (c : ccirc) (ob : option (nat * list cop)) : bool :=
+  cres_eqb (obind (controlled_circuit cfree k1 c) (controlled_circuit cfree k2)) ob.
 (* c1 + c2 *)
 Definition add_eqb (c1 c2 : ccirc) (ob : option (nat * list cop)) : bool := cres_eqb (Some (gc_add c1 c2)) ob.
 
